@@ -63,6 +63,7 @@ fn produce(t: &mut Tape, world_no: u64, rep: &mut WorldReport) -> Option<Produce
                 max_txs: 2,
                 force_min_utxo: None,
                 rich_directives: rich,
+                optional_bias: false,
             },
         );
         (format!("generated-{world_no}"), p.source(), Some(p))
@@ -107,7 +108,11 @@ fn produce(t: &mut Tape, world_no: u64, rep: &mut WorldReport) -> Option<Produce
                 datum: if t.chance(1, 2) {
                     Some(tir::Expression::Struct(tir::StructExpr {
                         constructor: t.index(3),
-                        fields: vec![tir::Expression::Number(int_boundary(t)), tir::Expression::Bytes(vec![1, 2, 3])],
+                        fields: vec![
+                            tir::Expression::Number(int_boundary(t)),
+                            tir::Expression::Bytes(vec![1, 2, 3]),
+                            tir::Expression::List(vec![tir::Expression::Number(1), tir::Expression::Number(2)]),
+                        ],
                     }))
                 } else {
                     None
@@ -259,16 +264,18 @@ pub fn world_c11(_tier: Tier, world_no: u64, mut tape: Tape) -> WorldReport {
             world: world_no,
             ..Default::default()
         };
-        if let Err(p) = guarded(|| inner_c11(world_no, tape, &mut rep)) {
+        let mut tape = tape;
+        if let Err(p) = guarded(|| inner_c11(world_no, &mut tape, &mut rep)) {
             rep.harness_error = Some(format!("harness panic: {} at {}:{}", p.message, p.file, p.line));
         }
+        rep.tape = tape.data.clone();
         rep
     })
 }
 
-fn inner_c11(world_no: u64, mut t: Tape, rep: &mut WorldReport) {
+fn inner_c11(world_no: u64, t: &mut Tape, rep: &mut WorldReport) {
     let s2 = 1 + t.draw(1 << 32);
-    let Some(prod) = produce(&mut t, world_no, rep) else { return };
+    let Some(prod) = produce(t, world_no, rep) else { return };
     let (bytes, version) = tx3_tir::encoding::to_bytes(&prod.tx);
     let clean = bytes.clone();
     let faulty = t.chance(3, 5);
@@ -306,7 +313,7 @@ fn inner_c11(world_no: u64, mut t: Tape, rep: &mut WorldReport) {
         } else {
             let n = 1 + t.weighted(&[5, 2, 1, 1]);
             for _ in 0..n {
-                damages.push(damage(&mut t, &mut wire, &other, rep));
+                damages.push(damage(t, &mut wire, &other, rep));
             }
         }
     }
@@ -407,7 +414,7 @@ fn inner_c11(world_no: u64, mut t: Tape, rep: &mut WorldReport) {
                 outcome = "Ok (damaged but decodable)".into();
                 rep.probe("decode-after-damage-succeeded");
                 // forwarded to the back end: C14 judges what happens next
-                back_end_stratum(&mut t, rep, &back, &prod);
+                back_end_stratum(t, rep, &back, &prod);
             }
         }
     }
@@ -430,7 +437,6 @@ fn inner_c11(world_no: u64, mut t: Tape, rep: &mut WorldReport) {
         "source": if prod.source.len() < 1500 { prod.source.clone() } else { format!("{}…", &prod.source[..1500]) },
         "wire_hex_head": hex::encode(&wire[..wire.len().min(48)]),
     }));
-    rep.tape = t.data.clone();
 }
 
 /// a damaged-but-decodable (or client-supplied) IR goes through the real resolver
@@ -443,6 +449,7 @@ fn back_end_stratum(t: &mut Tape, rep: &mut WorldReport, tx: &tir::Tx, prod: &Pr
             size: 1 + t.index(5),
             dist: AmountDist::Comfortable,
             ties: false,
+            distinct: false,
         };
         gen_ledger(t, &mut w, p, &cfg);
     }
@@ -645,22 +652,24 @@ pub fn world_c16(_tier: Tier, world_no: u64, mut tape: Tape) -> WorldReport {
             world: world_no,
             ..Default::default()
         };
-        if let Err(p) = guarded(|| inner_c16(world_no, tape, &mut rep)) {
+        let mut tape = tape;
+        if let Err(p) = guarded(|| inner_c16(world_no, &mut tape, &mut rep)) {
             rep.harness_error = Some(format!("harness panic: {} at {}:{}", p.message, p.file, p.line));
         }
+        rep.tape = tape.data.clone();
         rep
     })
 }
 
-fn inner_c16(world_no: u64, mut t: Tape, rep: &mut WorldReport) {
+fn inner_c16(world_no: u64, t: &mut Tape, rep: &mut WorldReport) {
     let s2 = 1 + t.draw(1 << 32);
     let mut d = crate::tape::Digest::default();
     let mut notes: Vec<String> = vec![];
 
     // ---- J1: per (type, encoding) inversion and rejection, direct calls
     for ty in [Type::Int, Type::Bool, Type::Bytes, Type::Address, Type::UtxoRef] {
-        let Some(v) = intended_for(&mut t, &ty) else { continue };
-        let (j, enc) = render(&mut t, &v);
+        let Some(v) = intended_for(t, &ty) else { continue };
+        let (j, enc) = render(t, &v);
         let jj = j.clone();
         let tyy = ty.clone();
         let r = in_consumer(s2, move || guarded(|| tx3_resolver::interop::from_json(jj, &tyy).map_err(|e| format!("{e}"))));
@@ -676,7 +685,7 @@ fn inner_c16(world_no: u64, mut t: Tape, rep: &mut WorldReport) {
                 }
             }
         }
-        let (bad, why) = render_bad(&mut t, &ty);
+        let (bad, why) = render_bad(t, &ty);
         let bb = bad.clone();
         let tyy = ty.clone();
         let r = in_consumer(s2, move || guarded(|| tx3_resolver::interop::from_json(bb, &tyy).map_err(|e| format!("{e}"))));
@@ -694,7 +703,7 @@ fn inner_c16(world_no: u64, mut t: Tape, rep: &mut WorldReport) {
     }
 
     // ---- J2/J3: a whole request through the channel
-    let Some(prod) = produce(&mut t, world_no, rep) else { return };
+    let Some(prod) = produce(t, world_no, rep) else { return };
     let lowered_only = matches!(prod.stage, "lowered");
     let (bytes, version) = tx3_tir::encoding::to_bytes(&prod.tx);
     let declared = tx3_tir::reduce::find_params(&prod.tx);
@@ -708,8 +717,8 @@ fn inner_c16(world_no: u64, mut t: Tape, rep: &mut WorldReport) {
         if t.chance(1, 10) {
             continue;
         }
-        let Some(v) = intended_for(&mut t, ty) else { continue };
-        let (j, _) = render(&mut t, &v);
+        let Some(v) = intended_for(t, ty) else { continue };
+        let (j, _) = render(t, &v);
         if use_env && t.chance(1, 2) {
             env_map.insert(k.clone(), j);
             placed.insert(k.clone(), "env");
@@ -723,7 +732,7 @@ fn inner_c16(world_no: u64, mut t: Tape, rep: &mut WorldReport) {
     let extras = t.index(3);
     for i in 0..extras {
         let k = format!("extra_{i}");
-        let j = random_json(&mut t, 2);
+        let j = random_json(t, 2);
         if t.chance(1, 2) {
             args_map.insert(k, j);
         } else {
@@ -826,7 +835,7 @@ fn inner_c16(world_no: u64, mut t: Tape, rep: &mut WorldReport) {
                     // typeconf: change a value's JSON type
                     if let Some(m) = doc["args"].as_object_mut() {
                         if let Some(k) = m.keys().next().cloned() {
-                            m.insert(k.clone(), random_json(&mut t, 2));
+                            m.insert(k.clone(), random_json(t, 2));
                             intended.remove(&k);
                         }
                     }
@@ -840,7 +849,7 @@ fn inner_c16(world_no: u64, mut t: Tape, rep: &mut WorldReport) {
                         if !doc.get("env").map(|x| x.is_object()).unwrap_or(false) {
                             doc["env"] = json!({});
                         }
-                        doc["env"][&k] = random_json(&mut t, 2);
+                        doc["env"][&k] = random_json(t, 2);
                         intended.remove(&k);
                     }
                     notes.push("duplicate one key under env".into());
@@ -848,7 +857,7 @@ fn inner_c16(world_no: u64, mut t: Tape, rep: &mut WorldReport) {
                 }
                 7 => {
                     let which = *t.pick(&["tir", "args", "env"]);
-                    doc[which] = random_json(&mut t, 1);
+                    doc[which] = random_json(t, 1);
                     intended.clear();
                     notes.push(format!("replace `{which}` by arbitrary JSON"));
                     rep.fire("fieldreplace");
@@ -856,7 +865,7 @@ fn inner_c16(world_no: u64, mut t: Tape, rep: &mut WorldReport) {
                 _ => {
                     // byte damage under the text encoding
                     let mut raw = bytes.clone();
-                    let note = damage(&mut t, &mut raw, &[0xa0], rep);
+                    let note = damage(t, &mut raw, &[0xa0], rep);
                     doc["tir"][content_key] = json!(if b64 {
                         base64::engine::general_purpose::STANDARD.encode(&raw)
                     } else {
@@ -868,7 +877,7 @@ fn inner_c16(world_no: u64, mut t: Tape, rep: &mut WorldReport) {
             }
         }
     } else if stratum == 2 {
-        doc = random_json(&mut t, 0);
+        doc = random_json(t, 0);
         notes.push("arbitrary JSON document".into());
         rep.fire("random-doc");
         intended.clear();
@@ -952,7 +961,7 @@ fn inner_c16(world_no: u64, mut t: Tape, rep: &mut WorldReport) {
                     txname: prod.txname.clone(),
                 };
                 p2.args = got;
-                back_end_stratum(&mut t, rep, &tir_back, &p2);
+                back_end_stratum(t, rep, &tir_back, &p2);
             }
         }
     }
@@ -972,5 +981,4 @@ fn inner_c16(world_no: u64, mut t: Tape, rep: &mut WorldReport) {
         "request": if doc_s.chars().count() < 1200 { doc_s } else { format!("{}…", doc_s.chars().take(1200).collect::<String>()) },
         "server_outcome": outcome,
     }));
-    rep.tape = t.data.clone();
 }
